@@ -640,6 +640,12 @@ HXPread(accrec_t *access_rec, int32 length, void *data)
     else if (length < 0)
         HGOTO_ERROR(DFE_RANGE, FAIL);
 
+    /* the position can be beyond the end of the element (seeks are not
+       bounded): nothing to read then, a negative length would be taken for
+       a huge one by the read below */
+    if (length < 0)
+        length = 0;
+
     /* if the file is open but external directory is changed (by HXsetdir),
        then close the file first before making the new file path */
     if (!info->file_open || (info->file_open && extdir_changed)) {
